@@ -1193,6 +1193,10 @@ def check(repo, rep, tier):
     r_label_recovery(repo, rep, 'R15.1')
     r_jigg(repo, rep)
     r_span_categories(repo, rep)
+    from .c18 import r_printers_pure
+    r_printers_pure(repo, rep, 'R15.2', 'R15.2', 'the XML written later for the same results lacks the fields that were renamed in place, and the reader cannot rebuild the tokens')
+    from .c07 import r_numbering
+    r_numbering(repo, rep, 'R15.1')
     from ..lints import r_yields_fresh
     r_yields_fresh(repo, rep, 'R15.2', [(RD, 'read_jigg_xml'), (RD, 'read_xml')],
                    'after list(read_..(file)) the tokens of every sentence are those of the last one')
